@@ -60,6 +60,7 @@ type c21BlockState struct {
 	BlockState // every method that is not overridden panics (nil interface)
 	tree       *c21Tree
 	finCalls   []string
+	init       *c21Op // set while initiateRound runs
 }
 
 func (b *c21BlockState) GenesisHash() common.Hash { return b.tree.genesis }
@@ -98,8 +99,19 @@ func (b *c21BlockState) BestBlockHeader() (*types.Header, error) {
 
 func (b *c21BlockState) BestBlockHash() common.Hash { return b.tree.bt.BestBlockHash() }
 
+// GetFinalisedHeader answers only while an `init` op runs initiateRound; a lagging vote message gets an error.
 func (b *c21BlockState) GetFinalisedHeader(round, setID uint64) (*types.Header, error) {
+	if b.init != nil {
+		return b.tree.headers[b.init.head], nil
+	}
 	return nil, c21ErrLag
+}
+
+func (b *c21BlockState) GetHighestRoundAndSetID() (uint64, uint64, error) {
+	if b.init == nil {
+		return 0, 0, c21ErrLag
+	}
+	return uint64(b.init.hr), uint64(b.init.hs), nil
 }
 
 func (b *c21BlockState) GetRuntime(common.Hash) (runtime.Instance, error) { return nil, c21ErrRuntime }
@@ -113,8 +125,22 @@ func (b *c21BlockState) SetFinalisedHash(h common.Hash, round, setID uint64) err
 
 type c21GrandpaState struct {
 	GrandpaState
-	chg string
+	chg  string
+	init *c21Op // the answers of the last `init` op
 }
+
+func (g *c21GrandpaState) GetAuthorities(setID uint64) ([]types.GrandpaVoter, error) {
+	if g.init == nil || setID != uint64(g.init.cur) {
+		return nil, c21ErrSetID
+	}
+	vs := make([]types.GrandpaVoter, len(g.init.auths))
+	for i, k := range g.init.auths {
+		vs[i] = Voter{Key: *c21Key(k).Public().(*ed25519.PublicKey), ID: uint64(i)}
+	}
+	return vs, nil
+}
+
+func (g *c21GrandpaState) GetLatestRound() (uint64, error) { return 0, c21ErrSetID }
 
 func (g *c21GrandpaState) NextGrandpaAuthorityChange(common.Hash, uint) (uint, error) {
 	switch g.chg {
@@ -127,7 +153,12 @@ func (g *c21GrandpaState) NextGrandpaAuthorityChange(common.Hash, uint) (uint, e
 	return uint(v), nil
 }
 
-func (g *c21GrandpaState) GetCurrentSetID() (uint64, error)                 { return 0, c21ErrSetID }
+func (g *c21GrandpaState) GetCurrentSetID() (uint64, error) {
+	if g.init == nil {
+		return 0, c21ErrSetID
+	}
+	return uint64(g.init.cur), nil
+}
 func (g *c21GrandpaState) SetPrevotes(_, _ uint64, _ []SignedVote) error   { return nil }
 func (g *c21GrandpaState) SetPrecommits(_, _ uint64, _ []SignedVote) error { return nil }
 func (g *c21GrandpaState) SetLatestRound(uint64) error                     { return nil }
@@ -275,8 +306,11 @@ type c21Op struct {
 	key         int
 	blk, num    int
 	sig         string
-	mround      int
-	mset        int
+	mround      int // -1: the Service's current round
+	mset        int // -1: the Service's current set id
+	cur, hr, hs int // init: GetCurrentSetID, GetHighestRoundAndSetID
+	head        int // init: block of GetFinalisedHeader
+	auths       []int
 }
 
 func c21Num(s string) (int, bool) {
@@ -448,7 +482,7 @@ func c21Parse(line string) (*c21Case, bool) {
 				if !c21SigOK(op.sig) {
 					return nil, false
 				}
-				op.mround, op.mset = c.round, c.set
+				op.mround, op.mset = -1, -1
 				if f[5] != "=" {
 					if op.mround, ok = c21Num(f[5]); !ok || op.mround > 1000 {
 						return nil, false
@@ -468,8 +502,27 @@ func c21Parse(line string) (*c21Case, bool) {
 				if op.blk, num, ok = c21ParseVote(f[2] + ":0"); !ok || num != 0 {
 					return nil, false
 				}
-				// the Service only votes for blocks it knows on the chain of its finalised head
-				if op.blk >= len(c.tree.headers) || !c21IsAnc(c.tree.parents, c.fin, op.blk) {
+			case len(f) == 6 && f[0] == "init":
+				op.kind = "init"
+				var ok1, ok2, ok3 bool
+				op.cur, ok1 = c21Num(f[1])
+				op.hr, ok2 = c21Num(f[3])
+				op.hs, ok3 = c21Num(f[4])
+				if !ok1 || !ok2 || !ok3 || op.cur > 1000 || op.hr > 1000 || op.hs > 1000 {
+					return nil, false
+				}
+				for _, a := range strings.Split(f[2], ",") {
+					k, ok := c21ParseKey(a)
+					if !ok || !(k < 16 || (k >= 100 && k < 104)) {
+						return nil, false
+					}
+					op.auths = append(op.auths, k)
+				}
+				var num int
+				if op.head, num, ok = c21ParseVote(f[5] + ":0"); !ok || num != 0 || op.head >= len(c.tree.headers) {
+					return nil, false
+				}
+				if len(op.auths) < 1 || len(op.auths) > 16 {
 					return nil, false
 				}
 			default:
@@ -624,6 +677,9 @@ func c21Run(line string) string {
 			telemetry:          c21Telemetry{},
 		}
 		if prev != nil { // the votes are only read by the queries
+			svc.state = NewState(prev.state.voters, prev.state.setID, prev.state.round)
+			svc.head = prev.head
+			svc.grandpaState = &c21GrandpaState{chg: c.chg, init: prev.grandpaState.(*c21GrandpaState).init}
 			svc.prevotes, svc.precommits = prev.prevotes, prev.precommits
 			svc.pvEquivocations, svc.pcEquivocations = prev.pvEquivocations, prev.pcEquivocations
 			svc.tracker = prev.tracker
@@ -637,7 +693,29 @@ func c21Run(line string) string {
 	var res []string
 	for _, op := range c.ops {
 		switch op.kind {
+		case "init":
+			op := op
+			bs := svc.blockState.(*c21BlockState)
+			gst := svc.grandpaState.(*c21GrandpaState)
+			bs.init, gst.init = &op, &op
+			err := svc.initiateRound()
+			bs.init = nil
+			if err != nil {
+				res = append(res, c21Class(err))
+				break
+			}
+			vs := make([]string, len(svc.state.voters))
+			for i, v := range svc.state.voters {
+				vs[i] = c21KeyName(v.Key.AsBytes(), 0)
+			}
+			res = append(res, fmt.Sprintf("init:%d:%d:%s:%s", svc.state.setID, svc.state.round, t.name(svc.head.Hash()),
+				strings.Join(vs, ",")))
 		case "own":
+			// the Service only votes for blocks it knows on the chain of its finalised head
+			if op.blk >= len(t.headers) || !c21IsAnc(t.parents, t.index[svc.head.Hash()], op.blk) {
+				res = append(res, "skip")
+				break
+			}
 			sv := &SignedVote{
 				Vote:        Vote{Hash: t.hash(op.blk), Number: uint32(t.headers[op.blk].Number)},
 				AuthorityID: c21Pub(c.me),
@@ -649,6 +727,12 @@ func c21Run(line string) string {
 			}
 			res = append(res, "ok")
 		case "m":
+			if op.mround < 0 {
+				op.mround = int(svc.state.round)
+			}
+			if op.mset < 0 {
+				op.mset = int(svc.state.setID)
+			}
 			msg := &VoteMessage{
 				Round: uint64(op.mround),
 				SetID: uint64(op.mset),
@@ -743,7 +827,7 @@ func c21Run(line string) string {
 		fin[out] = true
 	}
 	pvbStr, dpcStr, bfcStr, finStr := c21Set(pvb), c21Set(dpc), c21Set(bfc), c21Set(fin)
-	if 3*len(svc.pcEquivocations) > c.n {
+	if 3*len(svc.pcEquivocations) > len(svc.state.voters) {
 		// more than one third of the authorities equivocated in their precommits: blocks on different forks can
 		// have a supermajority at the same time and the candidate depends on the order in which the votes are
 		// visited; the property says nothing about that region, the outcome is not compared
@@ -887,9 +971,127 @@ func c21GenDense(r *vhRng) string {
 		n, me, base, strings.Join(strs, ","), chg, round, strings.Join(ops, ";"))
 }
 
+// c21GenSetChange: votes in one authority set, an authority-set change through initiateRound (members leave and
+// join, or the same members in another order, or no new set id at all), then votes of removed, surviving and new
+// authorities for the new set id and for the old one.
+func c21GenSetChange(r *vhRng) string {
+	n := r.Pick(2, 3, 4, 4, 5, 6)
+	size := 2 + r.Intn(6)
+	parents := make([]int, 0, size)
+	strs := make([]string, 0, size)
+	for i := 1; i < size; i++ {
+		p := i - 1
+		if r.Chance(1, 3) {
+			p = r.Intn(i)
+		}
+		parents = append(parents, p)
+		strs = append(strs, strconv.Itoa(p))
+	}
+	base := r.Pick(0, 0, 1)
+	me := fmt.Sprintf("v%d", r.Intn(n))
+	if r.Chance(1, 3) {
+		me = "v15"
+	}
+	set := r.Intn(3)
+	set0 := set
+	round := r.Pick(1, 1, 2, 3)
+	vote := func(b int) string { return fmt.Sprintf("b%d:%d", b, base+c21Depth(parents, b)) }
+	stage := func() string { return []string{"pv", "pv", "pv", "pc", "pc", "pp"}[r.Intn(6)] }
+	var ops []string
+	phase := func(keys []int, k int, setTok func() string) {
+		for i := 0; i < k; i++ {
+			key := keys[r.Intn(len(keys))]
+			id := fmt.Sprintf("v%d", key)
+			if key >= 100 {
+				id = fmt.Sprintf("x%d", key-100)
+			}
+			if id == me && r.Chance(2, 3) {
+				ops = append(ops, fmt.Sprintf("own %s b%d", []string{"pv", "pc"}[r.Intn(2)], r.Intn(size)))
+				continue
+			}
+			ops = append(ops, fmt.Sprintf("m %s %s %s ok = %s", stage(), id, vote(r.Intn(size)), setTok()))
+		}
+	}
+	cur := make([]int, n)
+	for i := range cur {
+		cur[i] = i
+	}
+	all := append([]int{}, cur...)
+	phase(cur, r.Intn(2*n+1), func() string { return "=" })
+	changes := 1 + r.Intn(2)
+	for ch := 0; ch < changes; ch++ {
+		next := append([]int{}, cur...)
+		newSet := set + 1
+		switch r.Intn(6) {
+		case 0: // the same members in another order
+		case 1: // no new set id: only the round moves on
+			newSet = set
+		default:
+			rm := r.Intn(len(next))
+			if len(next) > 1 && r.Chance(3, 4) {
+				next = append(next[:rm], next[rm+1:]...)
+			}
+			for a := r.Intn(3); a > 0; a-- {
+				k := r.Pick(6, 7, 8, 9, 100, 101)
+				dup := false
+				for _, x := range next {
+					dup = dup || x == k
+				}
+				if !dup {
+					next = append(next, k)
+				}
+			}
+		}
+		if r.Chance(2, 3) {
+			for i := len(next) - 1; i > 0; i-- {
+				j := r.Intn(i + 1)
+				next[i], next[j] = next[j], next[i]
+			}
+		}
+		names := make([]string, len(next))
+		for i, k := range next {
+			names[i] = fmt.Sprintf("v%d", k)
+			if k >= 100 {
+				names[i] = fmt.Sprintf("x%d", k-100)
+			}
+		}
+		hr := r.Pick(0, 0, 0, 1, round+1)
+		hs := r.Pick(newSet, newSet, newSet, 0, newSet+1)
+		head := 0
+		if r.Chance(1, 3) {
+			head = r.Intn(size)
+		}
+		ops = append(ops, fmt.Sprintf("init %d %s %d %d b%d", newSet, strings.Join(names, ","), hr, hs, head))
+		oldSet := set
+		if newSet != set {
+			cur = next
+		}
+		set = newSet
+		if hs > set {
+			set = hs
+		}
+		all = append(all, cur...)
+		all = append(all, 15, 100) // sometimes a key that never was an authority
+		phase(all, 2+r.Intn(2*n+2), func() string {
+			switch r.Intn(6) {
+			case 0:
+				return strconv.Itoa(oldSet)
+			case 1:
+				return strconv.Itoa(set + 1)
+			}
+			return "="
+		})
+	}
+	return fmt.Sprintf("n=%d me=%s base=%d tree=%s fin=0 chg=- R=%d S=%d|%s",
+		n, me, base, strings.Join(strs, ","), round, set0, strings.Join(ops, ";"))
+}
+
 func c21Gen(r *vhRng) string {
 	if r.Chance(1, 200) {
 		return fmt.Sprintf("thr %d", r.Intn(200))
+	}
+	if r.Chance(1, 4) {
+		return c21GenSetChange(r)
 	}
 	if r.Chance(1, 2) {
 		return c21GenDense(r)
